@@ -44,7 +44,8 @@ DataclassUser == {"C17Pair", "C17Tagged", "C17Unit", "C17NoHash", "C17Names",
                   "C17Kw", "C17KwMid", "C17Init", "C17Dfl", "C17Kw2",
                   \* (round 7)
                   "C17Oi", "C17OiLeaf", "C17OiMid", "C17OiVar", "C17OiSub", "C17OiNh", "C17OiNhLeaf",
-                  "C17NoHashLeaf", "C17NhVar", "C17NhPair", "C17OiNhVar", "C17OiNhSub"}
+                  "C17NoHashLeaf", "C17NhVar", "C17NhPair", "C17OiNhVar", "C17OiNhSub",
+                  "C17Lg", "C17LgLeaf", "C17LgMid", "C17LgMidLeaf", "C17OiLg", "C17OiLgLeaf"}
 \* user dataclass nodes whose field order is not the order of the positional parameters of
 \* __init__ (keyword-only fields, fields __init__ does not take): c17_classes.py
 ReorderedUser == {"C17Kw", "C17KwMid", "C17Init", "C17Dfl", "C17Kw2"}
@@ -71,10 +72,12 @@ VarLikeUser   == {"MultiVectorVariable", "C17Tagged", "C17OldVar", "C17Kw", "C17
 (*          the library, a "user" dataclass node (parent)                   *)
 (* Python's rule for where hash() of an instance comes from: the class's    *)
 (* own __hash__, else the decorator's, else the nearest base's.  A class    *)
-(* that ends at Expression.__hash__ (no own, no generated, no dataclass     *)
-(* node above it) can only be hashed where dataclasses are not frozen       *)
-(* (under -O): such a declaration is not a usable node type and is not in   *)
-(* the catalogue (CatalogueSane: HashProvided for every declared class).    *)
+(* with no own, no generated hash and no dataclass node above it ends at    *)
+(* the "legacy" Expression.__hash__, which caches the value on the          *)
+(* instance.  That is a usable node type as well (it has to work in every   *)
+(* interpreter mode, frozen dataclasses included) and is in the catalogue;  *)
+(* an Expression.__hash__ that caches by plain attribute assignment is the  *)
+(* negative control Buggy_LegacyHashAssigns of C17_Gen.                     *)
 (***************************************************************************)
 Decl(init, hash, own, base, parent) ==
     [init |-> init, hash |-> hash, own |-> own, base |-> base, parent |-> parent]
@@ -93,10 +96,16 @@ UserDecl(cls) ==
       [] cls = "C17NhPair"          -> Decl(TRUE, FALSE, FALSE, "user", "C17Pair")
       [] cls = "C17OiNhVar"         -> Decl(FALSE, FALSE, FALSE, "stock", "")
       [] cls = "C17OiNhSub"         -> Decl(FALSE, FALSE, FALSE, "user", "C17Oi")
-\* how a declared class comes by its hash: the decorator's / its own / its base's
+      [] cls \in {"C17Lg", "C17LgLeaf"} -> Decl(TRUE, FALSE, FALSE, "Expression", "")
+      [] cls \in {"C17LgMid", "C17LgMidLeaf"} -> Decl(TRUE, FALSE, FALSE, "plain", "")
+      [] cls = "C17OiLg"            -> Decl(FALSE, FALSE, FALSE, "Expression", "")
+      [] cls = "C17OiLgLeaf"        -> Decl(FALSE, FALSE, FALSE, "plain", "")
+\* how a declared class comes by its hash: the decorator's / its own / the one of the dataclass
+\* node it derives from / the legacy Expression.__hash__
 HashSource(cls) == LET d == UserDecl(cls) IN
-                   IF d.own /\ ~d.hash THEN "own" ELSE IF d.hash THEN "gen" ELSE "inherit"
-\* is there a hash that works in every interpreter mode?  crossed = FALSE: the decorator as
+                   IF d.own /\ ~d.hash THEN "own" ELSE IF d.hash THEN "gen"
+                   ELSE IF d.base \in {"stock", "user"} THEN "inherit" ELSE "legacy"
+\* does hash() of an instance stop BEFORE the legacy Expression.__hash__?  crossed = FALSE: the decorator as
 \* documented (it installs its hash iff hash=True); crossed = TRUE (C17_Gen's negative control):
 \* a decorator that reads the wrong one of its options (installs its hash iff init=True)
 RECURSIVE HashProvided(_, _)
@@ -256,6 +265,13 @@ nhl  == User("C17NoHashLeaf", << "l" >>, << >>)
 nhi  == User("C17NoHash", << "n" >>, << N("Product", << vx, nhl >>) >>)
 nhp  == User("C17NhPair", << "tg" >>, << N("Sum", << NHV("v"), KI(1) >>), vx, KI(2) >>)
 ons  == User("C17OiNhSub", << "n" >>, << N("Product", << ONV("v"), vy >>), KI(3) >>)
+\* hash=False without an own hash, not below a dataclass node (legacy Expression.__hash__)
+lgl  == User("C17LgLeaf", << "l" >>, << >>)
+lgi  == User("C17Lg", << "n" >>, << N("Sum", << vx, lgl >>) >>)
+lml  == User("C17LgMidLeaf", << "v", "t" >>, << >>)
+lgm  == User("C17LgMid", << "m" >>, << N("Sum", << lml, KI(1) >>), lgi >>)
+oll  == User("C17OiLgLeaf", << "l" >>, << >>)
+oli  == User("C17OiLg", << "n" >>, << N("Product", << vx, oll >>) >>)
 
 Cat == <<
   (* 1*) E(vx),
@@ -454,7 +470,14 @@ Cat == <<
   \* compiled expressions written over leaf subclasses declared with options
   (*152*) CV(wexp(OIV), << "s", "t" >>, << "q", "r" >>, "same"),
   (*153*) CV(fexp(NHV), << "c", "a" >>, << "b", "d" >>, "same"),
-  (*154*) CV(wexp(ONV), << "r" >>, << "q", "s", "t" >>, "same")
+  (*154*) CV(wexp(ONV), << "r" >>, << "q", "s", "t" >>, "same"),
+  \* hash=False without an own hash, under Expression / a plain intermediate class: the hash is
+  \* the legacy Expression.__hash__, cached on the instance - in every interpreter mode
+  (*155*) E(lgi),   (*156*) E(lgl),                               \* under Expression: inner, leaf
+  (*157*) E(lgm),   (*158*) E(lml),                               \* under a plain intermediate class
+  (*159*) E(oli),   (*160*) E(oll),                               \* with a hand-written __init__
+  (*161*) E(N("Sum", << P2(2, lgi), B("Power", lgm, KI(2)), Call(V("f"), << oli, vx >>) >>)),
+  (*162*) E(User("C17Lg", << "n" >>, << N("Sum", << vx, User("C17LgLeaf", << "k" >>, << >>) >>) >>))   \* != (155)
 >>
 NCat == Len(Cat)
 CatIds == 1..NCat
@@ -557,11 +580,12 @@ CatalogueSane ==
           /\ IsCompiled(i) /\ Cat[i].vobj = "same" /\ Len(Cat[i].vars) > 0
           /\ \E u \in VarLeaves(Cat[i].e) : IsSubLeaf(u) /\ u.cls = cls /\ LeafName(u) \in SeqToSet(Cat[i].vars)
     \* (round 7) the option space of the decorator is covered
-    \* every declared class of the catalogue is a usable node type, and every one is used
-    /\ \A cls \in DataclassUser : HashProvided(cls, FALSE) /\ OccursAt(cls) # {}
+    \* every declared class is used; the ones that end at Expression.__hash__ are exactly "legacy"
+    /\ \A cls \in DataclassUser : OccursAt(cls) # {}
+    /\ \A cls \in DataclassUser : HashProvided(cls, FALSE) <=> HashSource(cls) # "legacy"
     /\ \A cls \in DataclassUser : UserDecl(cls).base = "user" <=> UserDecl(cls).parent \in DataclassUser
     \* init x (generated / own / inherited hash) x (leaf / inner node) x (root / below a stock node)
-    /\ \A init \in BOOLEAN : \A src \in {"gen", "own", "inherit"} : \A leaf \in BOOLEAN :
+    /\ \A init \in BOOLEAN : \A src \in {"gen", "own", "inherit", "legacy"} : \A leaf \in BOOLEAN :
          \A where \in {"root", "below-stock"} :
           \E cls \in DataclassUser :
              /\ UserDecl(cls).init = init /\ HashSource(cls) = src
@@ -569,5 +593,8 @@ CatalogueSane ==
     \* a hand-written __init__ under every kind of base
     /\ \A b \in {"Expression", "plain", "stock", "user"} : \E cls \in DataclassUser :
           ~UserDecl(cls).init /\ UserDecl(cls).hash /\ UserDecl(cls).base = b
-    /\ ~ObjPyEq(136, 138) /\ ObjSameStruct(136, 136) /\ ~ObjPyEq(140, 147)
+    \* the legacy hash under both kinds of base that lead to it, with and without a generated __init__
+    /\ \A b \in {"Expression", "plain"} : \A init \in BOOLEAN : \E cls \in DataclassUser :
+          HashSource(cls) = "legacy" /\ UserDecl(cls).base = b /\ UserDecl(cls).init = init
+    /\ ~ObjPyEq(136, 138) /\ ObjSameStruct(136, 136) /\ ~ObjPyEq(140, 147) /\ ~ObjPyEq(155, 162)
 =============================================================================
